@@ -18,7 +18,7 @@ from mo_sql_parsing.keywords import RESERVED, join_keywords, precedence, pivot_k
 from mo_sql_parsing.utils import binary_ops, is_set_op
 
 MAX_PRECEDENCE = 100
-VALID = re.compile(r"^[a-zA-Z_]\w*$")
+VALID = re.compile(r"^[a-zA-Z_]\w*\Z", re.ASCII)  # ONLY WHAT THE LEXER READS AS A BARE NAME
 
 
 def is_keyword(identifier):
